@@ -146,19 +146,48 @@ Definition roundtrips (b : Z) : bool :=
 Example C16_std_roundtrip_palette : forallb roundtrips palette_bits = true.
 Proof. vm_compute. reflexivity. Qed.
 
+(* OPEN: no '-' after the first character of the printed form of a finite double
+   (the {:e} exponent is never negative because {:e} is used only above 1e10) *)
+Definition C16_no_inner_minus_stmt : Prop :=
+  forall x : f64, is_finite x = true -> ~ In 45%N (tl (num_display (Float x))).
+
+From MW Require Import Proofs.FloatLiteralProofs.
+Open Scope Z_scope.
+
+(* proved: such a printed form is scanned as ONE Number token (its characters are
+   digits . e and a leading -), and after #d it is a literal for what string->number
+   gives it *)
+Theorem C16_float_spelling_scan : forall x : f64, is_finite x = true ->
+  ~ In 45%N (tl (num_display (Float x))) ->
+  scan (num_display (Float x)) = Ok [mk_token 0 (blen (num_display (Float x))) TNumber].
+Proof. exact float_spelling_scan. Qed.
+Print Assumptions C16_float_spelling_scan.
+
+Theorem C16_float_literal : forall x : f64, is_finite x = true ->
+  ~ In 45%N (tl (num_display (Float x))) ->
+  parse_text (radix_prefix 10 ++ num_display (Float x)) =
+    (do v <- string_to_number Debug (num_display (Float x)) 10;
+     Ok (match v with CNum n => CNum n | _ => CSym (num_display (Float x)) end, None)).
+Proof. exact float_literal. Qed.
+Print Assumptions C16_float_literal.
+
 (* ... and on 120 pseudo-random finite doubles (a 64-bit linear congruential sequence
-   of bit patterns, the exponent field forced below 0x7ff), both OPEN statements,
+   of bit patterns, the exponent field forced below 0x7ff), the three OPEN statements,
    checked by the kernel on every run *)
 Definition lcg (b : Z) : Z := (b * 6364136223846793005 + 1442695040888963407) mod 2 ^ 64.
 Definition finite_bits (b : Z) : Z :=
   if (b / 2 ^ 52) mod 2048 =? 2047 then b - 2 ^ 62 else b.
 Fixpoint lcg_seq (n : nat) (b : Z) : list Z :=
   match n with O => [] | S k => finite_bits b :: lcg_seq k (lcg b) end.
-Definition has_point (b : Z) : bool :=
+(* the three statements on one double, the text computed once; in the branch where
+   display_point applies, num_display IS fmt_display *)
+Definition open_stmts_hold (b : Z) : bool :=
   let x := f64_of_bits b in
-  if negb (f64_ltb F_1E10 x) && negb (float_is_integer x) then existsb (N.eqb 46) (fmt_display x) else true.
-Example C16_std_roundtrip_sample :
-  forallb (fun b => roundtrips b && has_point b) (lcg_seq 120 0x9e3779b97f4a7c15) = true.
+  let t := num_display (Float x) in
+  (match dec2flt t with Some y => Z.eqb (f64_bits y) b | None => false end)
+  && (if negb (f64_ltb F_1E10 x) && negb (float_is_integer x) then existsb (N.eqb 46) t else true)
+  && negb (existsb (N.eqb 45) (tl t)).
+Example C16_open_stmts_sample : forallb open_stmts_hold (lcg_seq 120 0x9e3779b97f4a7c15) = true.
 Proof. vm_compute. reflexivity. Qed.
-Example C16_display_point_palette : forallb has_point palette_bits = true.
+Example C16_open_stmts_palette : forallb open_stmts_hold palette_bits = true.
 Proof. vm_compute. reflexivity. Qed.
